@@ -2233,11 +2233,24 @@ def rule_saved(repo):
         evs = [n for n in walk_no_nested(lp) if isinstance(n, ast.Call) and norm(n.func) == 'eval' and len(n.args) == 1]
         if len(tv) != 2 or not evs or any(norm(e.args[0]) not in tv for e in evs):
             raise AnalysisError(f"{ADD_QUAL}: loop over {p} outside the domain")
-        adds = [n for n in walk_no_nested(lp) if isinstance(n, ast.Call) and isinstance(n.func, ast.Attribute)
-                and n.func.attr == 'add' and isinstance(n.func.value, ast.Subscript) and _dsl_attr(n.func.value.value)]
+        def receiver(n):
+            """the set an `.add(...)` call mutates, single-assignment locals resolved"""
+            v = n.func.value
+            seen = 0
+            while isinstance(v, ast.Name) and seen < 4:
+                rv = reaching_value(v.id, n)
+                if rv is None:
+                    break
+                v, seen = rv, seen + 1
+            if isinstance(v, ast.Subscript):
+                v = ast.Subscript(value=_expand(v.value, stmt_of(n)), slice=v.slice, ctx=ast.Load())
+            return v
+        adds = [(n, receiver(n)) for n in walk_no_nested(lp) if isinstance(n, ast.Call) and isinstance(n.func, ast.Attribute)
+                and n.func.attr == 'add']
+        adds = [(n, rc) for n, rc in adds if isinstance(rc, ast.Subscript) and _dsl_attr(rc.value)]
         if adds:
-            a = adds[0]
-            base, F = _dsl_attr(a.func.value.value)
+            a, rcv = adds[0]
+            base, F = _dsl_attr(rcv.value)
             arg = a.args[0] if len(a.args) == 1 else None
             if isinstance(arg, ast.Name) and reaching_value(arg.id, a) is not None:
                 arg = reaching_value(arg.id, a)
@@ -2245,7 +2258,7 @@ def rule_saved(repo):
             via_top = F.startswith('all_') and tops and all(t.endswith('._dsl.elaborate_top') for t in tops)
             if via_top:
                 F = F[4:]
-            if norm(a.func.value.slice) != tv[0] or arg is None or norm(arg) != f"eval({tv[1]})" or \
+            if norm(rcv.slice) != tv[0] or arg is None or norm(arg) != f"eval({tv[1]})" or \
                     (base != aps[1] and not via_top):
                 r.bad(m, ADD_QUAL, norm(a), f"entries of {p} are not re-inserted as {aps[1]}._dsl.<map>[key].add(eval(name))", a.lineno)
                 continue
@@ -2542,13 +2555,39 @@ def rule_saved(repo):
         if len(dc) != 1 or len(ac) != 1:
             raise AnalysisError(f"{qual}: expected one _delete_component and one _add_component call")
         st = stmt_of(dc[0])
-        if not (isinstance(st, ast.Assign) and isinstance(st.targets[0], ast.Tuple) and len(st.targets[0].elts) == len(ret_names)
-                and all(isinstance(x, ast.Name) for x in st.targets[0].elts)):
+        grouped = None       # a local holding the whole result tuple
+        if isinstance(st, ast.Assign) and len(st.targets) == 1 and isinstance(st.targets[0], ast.Name) and st.value is dc[0]:
+            grouped = st.targets[0].id
+            # ... possibly unpacked later:  a, b, c = grouped
+            later = [x for x in walk_no_nested(fn) if isinstance(x, ast.Assign) and isinstance(x.value, ast.Name)
+                     and x.value.id == grouped and isinstance(x.targets[0], ast.Tuple)]
+            tgt = later[0].targets[0] if later else None
+        else:
+            tgt = st.targets[0] if isinstance(st, ast.Assign) and isinstance(st.targets[0], ast.Tuple) else None
+        if tgt is not None and not (len(tgt.elts) == len(ret_names) and all(isinstance(x, ast.Name) for x in tgt.elts)):
             raise AnalysisError(f"{qual}: result of _delete_component is not unpacked into {len(ret_names)} names")
-        local_of = {ret_names[i]: st.targets[0].elts[i].id for i in range(len(ret_names))}
-        if ac[0].keywords or any(isinstance(a, ast.Starred) for a in ac[0].args) or len(ac[0].args) != len(aps) - 1:
+        if tgt is None and grouped is None:
+            raise AnalysisError(f"{qual}: result of _delete_component is neither unpacked nor kept in one local")
+        local_of = {ret_names[i]: (tgt.elts[i].id if tgt is not None else f"{grouped}[{i}]") for i in range(len(ret_names))}
+        # positional arguments with starred single-assignment tuple/list locals expanded
+        passed = []
+        for a in ac[0].args:
+            if isinstance(a, ast.Starred):
+                v = a.value
+                if isinstance(v, ast.Name) and v.id == grouped:
+                    passed += [f"{grouped}[{i}]" for i in range(len(ret_names))]
+                    continue
+                if isinstance(v, ast.Name):
+                    v = reaching_value(v.id, ac[0])
+                if isinstance(v, (ast.Tuple, ast.List)) and not any(isinstance(x, ast.Starred) for x in v.elts):
+                    passed += [norm(x) for x in v.elts]
+                    continue
+                raise AnalysisError(f"{qual}: _add_component call outside the domain (starred `{norm(a.value)}` is not a single-"
+                                    f"assignment tuple/list local)")
+            passed.append(norm(a))
+        if ac[0].keywords or len(passed) != len(aps) - 1:
             raise AnalysisError(f"{qual}: _add_component call outside the domain")
-        param_of = {norm(a): aps[i + 1] for i, a in enumerate(ac[0].args)}
+        param_of = {a: aps[i + 1] for i, a in enumerate(passed)}
         for L in lists:
             if L not in local_of or L not in source:
                 continue
@@ -3804,6 +3843,46 @@ EQUIV = [
             to_save.add( x )
           if x in ( removed_interfaces | removed_connectables ):
             saved_upblk_calls.append( (blk, repr(x)) )"""),
+    _m('restore-through-local-set', COMP, "      top._dsl.all_upblk_reads[blk].add( eval(obj_name) )",
+       "      reads_of_blk = top._dsl.all_upblk_reads[blk]\n      reads_of_blk.add( eval(obj_name) )"),
+    _m('saved-state-grouped-and-starred', COMP, """    top._add_component( parent, foo_name, foo_indices, new_obj, saved_connections,
+                        saved_upblk_reads, saved_upblk_writes, saved_upblk_calls,
+                        saved_func_reads, saved_func_writes, saved_func_calls)
+
+    top._flush_pending_value_connections()
+    top._flush_pending_method_connections()
+    if check:
+      top.check()
+
+  def add_value_port""", """    saved_state = ( saved_connections,
+                    saved_upblk_reads, saved_upblk_writes, saved_upblk_calls,
+                    saved_func_reads, saved_func_writes, saved_func_calls )
+
+    top._add_component( parent, foo_name, foo_indices, new_obj, *saved_state )
+
+    top._flush_pending_value_connections()
+    top._flush_pending_method_connections()
+    if check:
+      top.check()
+
+  def add_value_port"""),
+    _m('delete-result-kept-in-one-local', COMP, """    saved_connections, saved_upblk_reads, saved_upblk_writes, saved_upblk_calls, \\
+      saved_func_reads, saved_func_writes, saved_func_calls = top._delete_component( foo )
+
+    new_obj = cls( *foo._dsl.args, **foo._dsl.kwargs )
+
+    # We actually don't need to merge param tree here because when we call
+    # _add_component, the parameters stored in parent will be pushed down
+    # to new_obj
+    top._add_component( parent, foo_name, foo_indices, new_obj, saved_connections,
+                        saved_upblk_reads, saved_upblk_writes, saved_upblk_calls,
+                        saved_func_reads, saved_func_writes, saved_func_calls)
+""", """    saved = top._delete_component( foo )
+
+    new_obj = cls( *foo._dsl.args, **foo._dsl.kwargs )
+
+    top._add_component( parent, foo_name, foo_indices, new_obj, *saved )
+"""),
     _m('add-sets-via-update', COMP, "    top._dsl.all_signals       |= added_signals", "    top._dsl.all_signals.update( added_signals )"),
 ]
 
